@@ -192,8 +192,83 @@ def marshalBareT (kt : KT) (vt : VT) (d : List (Key × Val)) : Outcome Cell :=
 def applyPuts (kt : KT) (d : List (Key × Val)) (ops : List (Key × Val)) : List (Key × Val) :=
   ops.foldl (fun d kv => put kt.lt d kv.1 kv.2) d
 
-def skipFixed (w : Nat) (bits : List Bool) (refs : List Cell) : Outcome (List Bool × List Cell) :=
-  if bits.length < w then .err "not enough bits" else .ok (bits.drop w, refs)
+/-! extras of HashmapAug: the decoded extra is kept as the text the harness prints for it -/
+
+inductive XT | u32 | cc | dbi | imf deriving DecidableEq
+
+def parseXT : String → Option XT
+  | "U32" => some .u32 | "CC" => some .cc | "DBI" => some .dbi | "IF" => some .imf | _ => none
+
+abbrev XRes := Outcome (String × List Bool × List Cell)
+
+def xU32 : XDec String := fun bits refs =>
+  if bits.length < 32 then .err "not enough bits" else .ok (toString (Bits.bitsToNat (bits.take 32)), bits.drop 32, refs)
+
+/-- tlb.Grams.UnmarshalTLB: 4-bit byte count (more than 8 is an error), then the bytes -/
+def xGrams : XDec String := fun bits refs =>
+  match readUint 4 bits with
+  | none => .err "not enough bits"
+  | some (ln, r) =>
+    if ln > 8 then .err "grams overflow"
+    else match readUint (8 * ln) r with
+      | none => .err "not enough bits"
+      | some (v, r') => .ok (toString v, r', refs)
+
+/-- tlb.VarUInteger32 as a dictionary value: 5-bit byte count, then the bytes -/
+def varUInt32Codec : Codec Nat where
+  enc _ := .err "unused"
+  dec bits _ := match readUint 5 bits with
+    | none => .err "not enough bits"
+    | some (ln, r) => match readUint (8 * ln) r with
+      | none => .err "not enough bits"
+      | some (v, _) => .ok v
+
+/-- tlb.CurrencyCollection: Grams, then ExtraCurrencyCollection = HashmapE[Uint32, VarUInteger32] -/
+def xCC : XDec String := fun bits refs =>
+  match xGrams bits refs with
+  | .ok (g, r, _) =>
+    match r with
+    | [] => .err "not enough bits"
+    | b :: r' =>
+      match unmarshalE varUInt32Codec 32 (Cell.ordinary r refs) with
+      | .ok d =>
+        let items := ",".intercalate (d.map fun kv => toString (Bits.bitsToNat kv.1) ++ ":" ++ toString kv.2)
+        .ok (g ++ "/{" ++ items ++ "}", r', if b then refs.drop 1 else refs)
+      | .err e => .err e
+      | .panic p => .panic p
+  | .err e => .err e
+  | .panic p => .panic p
+
+/-- tlb.DepthBalanceInfo: split_depth as Uint5, then CurrencyCollection -/
+def xDBI : XDec String := fun bits refs =>
+  match readUint 5 bits with
+  | none => .err "not enough bits"
+  | some (d, r) => match xCC r refs with
+    | .ok (c, r', refs') => .ok (toString d ++ "|" ++ c, r', refs')
+    | .err e => .err e
+    | .panic p => .panic p
+
+/-- tlb.ImportFees: Grams, then CurrencyCollection -/
+def xIF : XDec String := fun bits refs =>
+  match xGrams bits refs with
+  | .ok (g, r, refs') => match xCC r refs' with
+    | .ok (c, r', refs'') => .ok (g ++ "+" ++ c, r', refs'')
+    | .err e => .err e
+    | .panic p => .panic p
+  | .err e => .err e
+  | .panic p => .panic p
+
+def xdecOf : XT → XDec String
+  | .u32 => xU32 | .cc => xCC | .dbi => xDBI | .imf => xIF
+
+def xzero : XT → String
+  | .u32 => "0" | .cc => "0/{}" | .dbi => "0|0/{}" | .imf => "0+0/{}"
+
+def showExtras : AugExtras String → String
+  | .leaf y => "L(" ++ y ++ ")"
+  | .fork y l r => "F(" ++ y ++ "," ++ showExtras l ++ "," ++ showExtras r ++ ")"
+
+def codecOfAug (vt : VT) : Codec Val := codecOf vt
 
 end Driver.C05
 
@@ -271,12 +346,21 @@ def opsC05 : List (String × Handler) := [
       pure ("ok M=" ++ (outStr (omap m cellText)).replace " " ":" ++ " I=" ++
         (outStr (omap items (showEntries kt vt))).replace " " ":")
     | _ => none),
-  -- HashmapAugE[K, Uint32, Uint32]: Unmarshal, Keys()/Values()
+  -- HashmapAugE[K, V, X]: Unmarshal; Keys()/Values(), root extra, tree of extras
   ("hma.decode", fun
-    | [kt, t] => match parseKT kt, parseCell t with
-      | some kt, some c =>
-        outStr (omap (unmarshalAugE (skipFixed 32) (fixedCodec 32) kt.n c) (showEntries kt .u32))
-      | _, _ => "bad-op"
+    | [kt, vt, xt, t] => match parseKT kt, parseVT vt, parseXT xt, parseCell t with
+      | some kt, some vt, some xt, some c =>
+        outStr (omap (unmarshalAugE (xdecOf xt) (xzero xt) (codecOfAug vt) kt.n c) fun r =>
+          showEntries kt vt (r.1.map fun kv => (decKey kt kv.1, kv.2)) ++ " | X=" ++ r.2.2 ++ " T=" ++ showExtras r.2.1)
+      | _, _, _, _ => "bad-op"
+    | _ => "bad-op"),
+  -- HashmapAug[K, V, X] stored inline: Unmarshal from the given cell
+  ("hmai.decode", fun
+    | [kt, vt, xt, t] => match parseKT kt, parseVT vt, parseXT xt, parseCell t with
+      | some kt, some vt, some xt, some c =>
+        outStr (omap (unmarshalAug (xdecOf xt) (xzero xt) (codecOfAug vt) kt.n c) fun r =>
+          showEntries kt vt (r.1.map fun kv => (decKey kt kv.1, kv.2)) ++ " | T=" ++ showExtras r.2)
+      | _, _, _, _ => "bad-op"
     | _ => "bad-op")
 ]
 
